@@ -44,6 +44,7 @@ static sqfs_object_t *id_table_copy(const sqfs_object_t *obj)
 		return NULL;
 	}
 
+	sqfs_object_init(copy, id_table_destroy, id_table_copy);
 	return (sqfs_object_t *)copy;
 }
 
